@@ -91,6 +91,81 @@ theorem cleanup_only_removes (cfg : Cfg) (ch : List Nat) (now : Nat) (c : Cache)
   obtain ⟨e0, he0, hk, _, hall⟩ := cleanup_mem he
   exact ⟨e0, he0, hk, fun a ha => (hall a ha).1⟩
 
+/-- Quirk made explicit: after the reliability filter the sort key `failure_rate() as u64` is 0 for every
+address, so the "lowest failure rate first" sort never reorders and the cap keeps the first
+`max_addrs_per_peer` addresses in insertion order. -/
+theorem sort_key_constant_after_filter (cfg : Cfg) (now : Nat) (a : Addr) (h : keep cfg now a = true) : frKey a = 0 := by
+  simp only [keep, reliableCmp, Bool.and_eq_true, decide_eq_true_eq] at h
+  simp only [frKey]
+  by_cases hf : a.fail = 0
+  · simp [hf]
+  · exact Nat.div_eq_of_lt (by omega)
+
+theorem oldest_max {now : Nat} : ∀ {c : Cache} {q a : Nat}, oldest now c = some (q, a) →
+    (∃ l, (q, l) ∈ c ∧ peerAge now l = a) ∧ ∀ e ∈ c, peerAge now e.2 ≤ a := by
+  intro c
+  induction c with
+  | nil => intro q a h; simp [oldest] at h
+  | cons e t ih =>
+    intro q a h
+    simp only [oldest] at h
+    split at h
+    · rename_i ho
+      have := oldest_none ho
+      subst this
+      simp only [Option.some.injEq, Prod.mk.injEq] at h
+      obtain ⟨rfl, rfl⟩ := h
+      exact ⟨⟨e.2, by simp, rfl⟩, by intro e' he'; simp at he'; subst he'; exact Nat.le_refl _⟩
+    · rename_i q' a' ho
+      obtain ⟨⟨l', hl', ha'⟩, hmax⟩ := ih ho
+      split at h
+      · rename_i hle
+        simp only [Option.some.injEq, Prod.mk.injEq] at h
+        obtain ⟨rfl, rfl⟩ := h
+        refine ⟨⟨e.2, by simp, rfl⟩, ?_⟩
+        intro e' he'
+        simp only [List.mem_cons] at he'
+        rcases he' with rfl | he'
+        · exact Nat.le_refl _
+        · exact Nat.le_trans (hmax e' he') hle
+      · rename_i hle
+        simp only [Option.some.injEq, Prod.mk.injEq] at h
+        obtain ⟨rfl, rfl⟩ := h
+        refine ⟨⟨l', by simp [hl'], ha'⟩, ?_⟩
+        intro e' he'
+        simp only [List.mem_cons] at he'
+        rcases he' with rfl | he'
+        · omega
+        · exact hmax e' he'
+
+/-- **Every tie-break is legal.** Whatever preference list `ch` is supplied (the hash map's iteration order in
+the implementation), the peer evicted next is one whose most recent address is the oldest of all peers. -/
+theorem eviction_choice_legal (ch : List Nat) (now : Nat) (c : Cache) (p : Nat) (h : pickOldest ch now c = some p) :
+    ∃ l, (p, l) ∈ c ∧ ∀ e ∈ c, peerAge now e.2 ≤ peerAge now l := by
+  simp only [pickOldest] at h
+  split at h
+  · rename_i q hq
+    simp only [Option.some.injEq] at h
+    subst h
+    have := List.find?_some hq
+    simp only [isOldest] at this
+    split at this
+    · rename_i l q' a hl ho
+      simp only [beq_iff_eq] at this
+      refine ⟨l, lookup_mem hl, ?_⟩
+      rw [this]
+      exact (oldest_max ho).2
+    · simp at this
+  · cases ho : oldest now c with
+    | none => simp [ho] at h
+    | some x =>
+      cases x with
+      | mk q a =>
+        simp only [ho, Option.map_some, Option.some.injEq] at h
+        subst h
+        obtain ⟨⟨l, hl, ha⟩, hmax⟩ := oldest_max ho
+        exact ⟨l, hl, by rw [ha]; exact hmax⟩
+
 /-- **Merging keeps both sides.** After `CacheData::sync` (before any clean-up) every peer and every address
 known to the store's memory or to the other cache (the file) is still known. -/
 theorem sync_keeps_both (c other : Cache) :
@@ -272,6 +347,8 @@ end SafeNet.Props.C18
 #print axioms SafeNet.Props.C18.craft_dialable
 #print axioms SafeNet.Props.C18.cleanup_drops_expired_and_unreliable
 #print axioms SafeNet.Props.C18.cleanup_only_removes
+#print axioms SafeNet.Props.C18.sort_key_constant_after_filter
+#print axioms SafeNet.Props.C18.eviction_choice_legal
 #print axioms SafeNet.Props.C18.sync_keeps_both
 #print axioms SafeNet.Props.C18.flush_writes_merge
 #print axioms SafeNet.Props.C18.save_load_identity_mod_cleanup
